@@ -137,6 +137,9 @@ type Pod struct {
 	// Namespace of the pod ("" = "default").  Pod NAMES stay unique across namespaces (outcomes are keyed by name).
 	Namespace string   `json:"namespace,omitempty"`
 	Volumes   []Volume `json:"volumes,omitempty"`
+	// Owner: the pod's controller is the ReplicaSet of this name in the pod's namespace (an ownerReference with controller=true;
+	// the ReplicaSet object itself exists only if Scenario.ReplicaSets declares it)
+	Owner string `json:"owner,omitempty"`
 }
 
 func (p *Pod) NS() string {
@@ -204,6 +207,27 @@ func (c *PVC) NS() string {
 	return c.Namespace
 }
 
+// ListFault makes the Nth (1-based) List of objects of kind Kind ("Namespace", "Pod", "NodePool", ...) that is issued DURING
+// the scheduling pass (World.Schedule; never while the world is built) fail once with a 503 ServiceUnavailable.
+type ListFault struct {
+	Kind string `json:"kind"`
+	Nth  int    `json:"nth"`
+}
+
+// Service is a v1 Service of namespace Namespace ("" = "default") with an equality selector (nil = selects nothing).
+type Service struct {
+	Name      string            `json:"name"`
+	Namespace string            `json:"namespace,omitempty"`
+	Selector  map[string]string `json:"selector"`
+}
+
+// ReplicaSet is an apps/v1 ReplicaSet (only its selector matters); pods name it as their controller with Pod.Owner.
+type ReplicaSet struct {
+	Name      string   `json:"name"`
+	Namespace string   `json:"namespace,omitempty"`
+	Selector  LabelSel `json:"selector"`
+}
+
 type Scenario struct {
 	ITs              []IT        `json:"its"`
 	Pools            []NodePool  `json:"pools"`
@@ -223,4 +247,13 @@ type Scenario struct {
 	StorageClasses []StorageClass `json:"storageClasses,omitempty"`
 	PVs            []PV           `json:"pvs,omitempty"`
 	PVCs           []PVC          `json:"pvcs,omitempty"`
+	// API faults during the pass (see ListFault)
+	ListFaults []ListFault `json:"listFaults,omitempty"`
+	// DefaultSpreads are the cluster-level default topology spread constraints of --scheduler-config
+	// (podTopologySpread.defaultConstraints, defaultingType List): they apply to every pod WITHOUT constraints of its own, with
+	// the label selector the kube-scheduler deduces for that pod from the Services that select it and from its controller
+	// (ReplicaSet).  Their own MatchLabels / MatchExprs / MatchLabelKeys must stay empty.
+	DefaultSpreads []Spread     `json:"defaultSpreads,omitempty"`
+	Services       []Service    `json:"services,omitempty"`
+	ReplicaSets    []ReplicaSet `json:"replicaSets,omitempty"`
 }
